@@ -150,7 +150,7 @@ Lemma seq_collect_cons_ok r p rest l :
   fst (seq_collect ((r, p) :: rest)) = Ok l ->
   exists v lr, r = Ok v /\ l = v :: lr /\ fst (seq_collect rest) = Ok lr.
 Proof.
-  cbn [seq_collect]. destruct r as [v| |]; try (cbn; discriminate).
+  cbn [seq_collect]. destruct r as [v| | |]; try (cbn; discriminate).
   destruct (seq_collect rest) as [rr pp] eqn:E. cbn [fst]. intro H.
   apply res_map_ok in H as (lr & -> & ->). eauto.
 Qed.
@@ -177,16 +177,22 @@ Section Fin.
   Qed.
 
   Lemma dict_items_ok kvs : Forall (fun kv => P (fst kv) /\ P (snd kv)) kvs -> forall l',
-    fst (seq_collect (flat_map (fun kv : val * val => let '(k, x) := kv in [fin N o x; fin N o k]) kvs)) = Ok l' ->
-    length (pair_up l') = length kvs /\
-    forallb (fun kv : val * val => let '(k, x) := kv in width_okb N k && width_okb N x) (pair_up l') = true.
+    fst (dict_collect (map (fun kv : val * val => let '(k, x) := kv in (fin N o x, fin N o k)) kvs)) = Ok l' ->
+    length l' = length kvs /\
+    forallb (fun kv : val * val => let '(k, x) := kv in width_okb N k && width_okb N x) l' = true.
   Proof.
     induction 1 as [|[k x] kvs [Hk Hx] Hl IH]; intros l' H.
-    - apply seq_collect_nil_ok in H. subst. split; reflexivity.
-    - cbn [flat_map app] in H. cbn [fst snd] in Hk, Hx.
-      destruct (fin N o x) as [rx px] eqn:Ex. apply seq_collect_cons_ok in H as (vx & l1 & -> & -> & H).
-      destruct (fin N o k) as [rk pk] eqn:Ek. apply seq_collect_cons_ok in H as (vk & lr & -> & -> & H).
-      destruct (IH lr H) as [Hlen Hall]. cbn [pair_up length forallb]. split; [lia|].
+    - cbn in H. injection H as <-. split; reflexivity.
+    - cbn [map] in H. cbn [fst snd] in Hk, Hx.
+      destruct (fin N o x) as [rx px] eqn:Ex. destruct (fin N o k) as [rk pk] eqn:Ek.
+      cbn [dict_collect] in H.
+      destruct rx as [vx| | |]; try (cbn in H; discriminate).
+      destruct rk as [vk| | |]; try (cbn in H; discriminate).
+      destruct (hashable vk); [|cbn in H; discriminate].
+      destruct (dict_collect (map (fun kv : val * val => let '(k0, x0) := kv in (fin N o x0, fin N o k0)) kvs))
+        as [rr pp] eqn:Er. cbn [fst] in H.
+      apply res_map_ok in H as (lr & -> & ->).
+      destruct (IH lr eq_refl) as [Hlen Hall]. cbn [length forallb]. split; [lia|].
       rewrite Hall, andb_true_r. apply andb_true_iff. split.
       + apply Hk. rewrite Ek. reflexivity.
       + apply Hx. rewrite Ex. reflexivity.
@@ -203,7 +209,7 @@ Section Fin.
       + cbn in H. injection H as <-. cbn [length forallb]. split; [lia|reflexivity].
     - cbn [map] in H. destruct (fin N o x) as [rx px] eqn:Ex. cbn [iter_collect] in H.
       destruct (over N i) eqn:Eo; [cbn in H; discriminate|].
-      destruct rx as [v| |]; try (cbn in H; discriminate).
+      destruct rx as [v| | |]; try (cbn in H; discriminate).
       destruct (iter_collect N (S i) (map (fin N o) l) e) as [rr pp] eqn:Er. cbn [fst] in H.
       apply res_map_ok in H as (lr & -> & ->).
       assert (Hi' : Z.of_nat (S i) <= N) by (unfold over in Eo; lia).
@@ -230,8 +236,8 @@ Section Fin.
       assert (Hw : Z.of_nat (length l') <= N) by (unfold too_large in Et; lia).
       cbn [width_okb]; rewrite Hall; lia.
     - intros kvs Hl r H. cbn [fin] in H. destruct (too_large N (length kvs)) eqn:Et; [cbn in H; discriminate|].
-      apply wrap_ok in H as (l' & H & ->). destruct (dict_items_ok kvs Hl l' H) as [Hlen Hall].
-      assert (Hw : Z.of_nat (length (pair_up l')) <= N) by (unfold too_large in Et; lia).
+      cbn [fst] in H. apply res_map_ok in H as (l' & H & ->). destruct (dict_items_ok kvs Hl l' H) as [Hlen Hall].
+      assert (Hw : Z.of_nat (length l') <= N) by (unfold too_large in Et; lia).
       cbn [width_okb]. rewrite Hall. lia.
     - intros l Hl r H. cbn [fin] in H. destruct (too_large N (length l)) eqn:Et; [cbn in H; discriminate|].
       apply wrap_ok in H as (l' & H & ->). destruct (seq_items_ok l Hl l' H) as [Hlen Hall].
@@ -249,7 +255,7 @@ Section Fin.
     fst (seq_collect rs) <> Diverges.
   Proof.
     induction 1 as [|[r p] rs Hr Hrs IH]; [cbn; discriminate|].
-    cbn [seq_collect]. cbn [fst] in Hr. destruct r as [v| |]; [|cbn; discriminate|congruence].
+    cbn [seq_collect]. cbn [fst] in Hr. destruct r as [v| | |]; [|cbn; discriminate|congruence|cbn; discriminate].
     destruct (seq_collect rs) as [rr pp]. cbn [fst] in *. destruct rr; cbn; congruence.
   Qed.
 
@@ -260,13 +266,16 @@ Section Fin.
     - cbn [iter_collect]. destruct e; [|cbn; discriminate].
       destruct (N <? 0) eqn:E; [lia|cbn; discriminate].
     - cbn [iter_collect]. destruct (over N i); [cbn; discriminate|].
-      cbn [fst] in Hr. destruct r as [v| |]; [|cbn; discriminate|congruence].
+      cbn [fst] in Hr. destruct r as [v| | |]; [|cbn; discriminate|congruence|cbn; discriminate].
       specialize (IH (S i) e). destruct (iter_collect N (S i) rs e) as [rr pp]. cbn [fst] in *.
       destruct rr; cbn; congruence.
   Qed.
 
   Lemma Forall_map_fin l : Forall T l -> Forall (fun rp : res val * nat => fst rp <> Diverges) (map (fin N o) l).
   Proof. induction 1; cbn [map]; constructor; assumption. Qed.
+
+  Lemma res_map_terminates {A B} (f : A -> B) (r : res A) : r <> Diverges -> res_map f r <> Diverges.
+  Proof. destruct r; cbn; congruence. Qed.
 
   Lemma wrap_terminates c x : fst x <> Diverges -> fst (wrap c x) <> Diverges.
   Proof. unfold wrap. cbn [fst]. destruct (fst x); cbn; congruence. Qed.
@@ -282,9 +291,16 @@ Section Fin.
     - intros l Hl. cbn [fin]. destruct (too_large N (length l)); [cbn; discriminate|].
       apply wrap_terminates, seq_collect_terminates, Forall_map_fin, Hl.
     - intros kvs Hl. cbn [fin]. destruct (too_large N (length kvs)); [cbn; discriminate|].
-      apply wrap_terminates, seq_collect_terminates.
-      induction Hl as [|[k x] kvs [Hk Hx] Hl IH]; cbn [flat_map app]; [constructor|].
-      constructor; [exact Hx|]. constructor; [exact Hk|exact IH].
+      cbn [fst]. apply res_map_terminates.
+      induction Hl as [|[k x] kvs [Hk Hx] Hl IH]; cbn [map]; [cbn; discriminate|].
+      cbn [fst snd] in Hk, Hx.
+      destruct (fin N o x) as [rx px]. destruct (fin N o k) as [rk pk]. cbn [fst] in Hk, Hx.
+      cbn [dict_collect].
+      destruct rx as [vx| | |]; [|cbn; discriminate|congruence|cbn; discriminate].
+      destruct rk as [vk| | |]; [|cbn; discriminate|congruence|cbn; discriminate].
+      destruct (hashable vk); [|cbn; discriminate].
+      destruct (dict_collect (map (fun kv : val * val => let '(k0, x0) := kv in (fin N o x0, fin N o k0)) kvs))
+        as [rr pp]. cbn [fst] in *. apply res_map_terminates. exact IH.
     - intros l Hl. cbn [fin]. destruct (too_large N (length l)); [cbn; discriminate|].
       apply wrap_terminates, seq_collect_terminates, Forall_map_fin, Hl.
     - intros l e Hl. cbn [fin]. apply wrap_terminates, iter_collect_terminates, Forall_map_fin, Hl.
